@@ -7,7 +7,7 @@
    present; day_reference = the property's value of a day: mean of the present readings, missing when half or fewer
    are present. *)
 From Coq Require Import ZArith QArith List Bool Lia.
-From V Require Import Model.Resample Model.TempAgg Proofs.ResampleProofs Proofs.TempAggProofs.
+From V Require Import Model.Resample Model.Cmp Model.TempAgg Generated.TempAggGen Proofs.ResampleProofs Proofs.TempAggProofs Proofs.TempAggGenProofs.
 Import ListNotations.
 Open Scope Z_scope.
 
@@ -270,3 +270,57 @@ Proof.
   - apply orb_true_iff in H2. destruct H2 as [H2|H2]; [left; apply Z.leb_le; exact H2|right; left; apply Z.leb_le; exact H2].
   - apply andb_true_iff in H2. destruct H2 as [Ha Hb]. right. right. split; apply Z.leb_le; assumption.
 Qed.
+
+(* ------------------------------------------------------------------------------------------------ *)
+(* D. the model's tests and constants are the source's own (Generated/TempAggGen.v, regenerated from           *)
+(*    _DailyData / _BillingData._compute_temperature_features by harness/translate_resample.py on every run)   *)
+(* ------------------------------------------------------------------------------------------------ *)
+
+(* both classes follow one variant of the model *)
+Theorem C09_classes_same_variant :
+  gen_daily_scaled = gen_billing_scaled /\ gen_daily_keep = gen_billing_keep /\ gen_daily_median = gen_billing_median /\
+  gen_daily_ratio = gen_billing_ratio /\ gen_daily_buffer = gen_billing_buffer.
+Proof. exact classes_same_variant_l. Qed.
+Print Assumptions C09_classes_same_variant.
+
+(* other feeds: the day value the class keeps, by the source's test on the coverage and the source's (absence of a)
+   division by the coverage *)
+Theorem C09_temp_value_is_generated : forall v c,
+  temp_value gen_daily_scaled v c =
+  if cmpq gen_daily_keep c then (if gen_daily_scaled then option_map (fun x => (x / c)%Q) v else v) else None.
+Proof. exact temp_value_generated_l. Qed.
+Print Assumptions C09_temp_value_is_generated.
+
+Theorem C09_temperature_warning_complement : forall c, cmpq gen_daily_warn c = negb (cmpq gen_daily_keep c).
+Proof. exact temperature_warning_complement_l. Qed.
+Print Assumptions C09_temperature_warning_complement.
+
+(* hourly feed: the three tests of the half rule are the source's *)
+Theorem C09_median_test_is_generated : forall m2, (2 <? m2) = cmpq gen_daily_median (m2 # 2).
+Proof. exact median_test_generated_l. Qed.
+Print Assumptions C09_median_test_is_generated.
+
+Theorem C09_half_rule_row_test_is_generated : forall billing m2 m a b, 0 < a + b ->
+  invalid_row billing m2 (mkT m (Some a) (Some b)) =
+  cmpq gen_daily_ratio (a # Z.to_pos (a + b)) ||
+  share_test (if billing then gen_billing_median_share else gen_daily_median_share) a m2.
+Proof. exact invalid_row_generated_l. Qed.
+Print Assumptions C09_half_rule_row_test_is_generated.
+
+(* the last meter day is closed by the source's buffer (pd.Timedelta(days=1) = 1440 elapsed minutes) *)
+Theorem C09_buffer_is_generated : forall billing tol midx temps,
+  hourly_path billing tol midx temps = hourly_path_buf gen_daily_buffer billing tol midx temps.
+Proof. exact buffer_generated_l. Qed.
+Print Assumptions C09_buffer_is_generated.
+
+Example C09_nonvacuous_generated :
+  cmpq gen_daily_keep (3 # 4) = true /\ cmpq gen_daily_keep (1 # 2) = false /\
+  cmpq gen_daily_ratio (12 # 24) = true /\ cmpq gen_daily_ratio (13 # 24) = false /\
+  invalid_row true 48 (mkT None (Some 12) (Some 11)) = true /\ invalid_row false 48 (mkT None (Some 12) (Some 11)) = false /\
+  share_test gen_billing_median_share 12 48 = true /\ gen_daily_buffer = 1440.
+Proof. repeat split; vm_compute; reflexivity. Qed.
+
+(* with the source's own variant the witness day (36 of 48 half-hours present, all 30.0 F) is reported as 30.0 *)
+Example C09_witness_under_generated_variant :
+  option_map Qred (t_mean (wit9_row gen_daily_scaled)) = Some 30%Q.
+Proof. vm_compute. reflexivity. Qed.
